@@ -279,3 +279,10 @@ def r10(rr, repo):
     from .c13 import r4 as c13r4, r10 as c13r10
     c13r4(rr, repo)
     c13r10(rr, repo)
+
+
+@rule('C14.R11', "a reader restarted from a head that names a file which was pruned meanwhile lands on the first newer file, not past the end of the list: seek() compares the timestamp in the saved name with the listed "
+                 "ones in the same unit (shares C13.R14)")
+def r11(rr, repo):
+    from .c13 import r14 as c13r14
+    c13r14(rr, repo)
